@@ -1,6 +1,7 @@
 import MorfuseModel.Archive.DamageAll
 import MorfuseModel.Archive.Sample
 import MorfuseModel.Archive.Eq
+import MorfuseModel.Archive.TablesSafety
 /-!
 # C11 — damaged archives are reported, never trusted
 
@@ -90,6 +91,51 @@ theorem C11_indices_in_bounds (cfg : Cfg) (hf : cfg.allFixed) (classes : List By
   cases hr : readAll cfg classes info sch bytes with
   | ok a s => rw [hr] at h; exact h.1
   | err e s => rw [hr] at h; exact h.2.1
+
+/-! ### the count-directed readers outside `Archiver.cpp` (`Container_archive.h`, `set_archive.h`, `ScriptVariableList`)
+
+`InvW cfg s`: the invariant of `C11_indices_in_bounds` (every queued fix-up inside the object table, the table
+allocatable) and the unread rest of the stream short enough that a count bounded by it can be allocated
+(`rest.length * 32 + 25 < allocLimit`).  `SafeW cfg r`: `r` is a value or a **reported** archive error, in a state that
+satisfies `InvW` again — in particular none of the undefined outcomes `oob` (division by `tableLength = 0`, index
+outside a table), `alloc` (a count taken from the archive allocated although it exceeds the stream), `uninit`. -/
+
+/-- **`con::Archive(arc, Container&, func)`** (the lists of listeners of the event tables), load side as it is after
+    1137e36: on arbitrary bytes, from any state the reader can be in. -/
+theorem C11_container_archive_never_undefined (cfg : Cfg) (hf : cfg.allFixed) (s : RS) (hs : InvW cfg s) :
+    SafeW cfg (readConList cfg s) :=
+  readConList_safeW cfg hf s hs
+
+/-- **`con::set::Archive`** (Listener notify / wait-for / end tables), load side as it is after 1137e36 and 00f4e12:
+    header checks, count-directed entry loop, keys through the dictionary, one container per entry. -/
+theorem C11_set_archive_never_undefined (cfg : Cfg) (hf : cfg.allFixed) (s : RS) (hs : InvW cfg s) :
+    SafeW cfg (readSet cfg s) :=
+  readSet_safeW cfg hf s hs
+
+/-- **`ScriptVariableList::Archive`** (the same set template over named variables).
+    Full statement wanted: `SafeW cfg (readVars cfg fuel specs s)` outright.  Proved: given that the value reader
+    (`ScriptVariable::ArchiveInternal`, `readValue`) is safe from every such state.  Missing: that premise — the safety
+    of `readValue` on arbitrary bytes (14 kinds, nested; it needs the fuel of the model to be tied to the unread length
+    and the switch `arraySizeChecked`, which is **off** in the current tree: F12) — is not proved; it is exercised by
+    the differential run (payload, count, kind and flag bytes of every value kind are damaged there). -/
+theorem C11_variable_list_never_undefined_partial (cfg : Cfg) (hf : cfg.allFixed) (fuel : Nat)
+    (hrv : ∀ l sup s, InvW cfg s → SafeW cfg (readValue cfg fuel l sup s)) (specs : List (Lbl × Supply)) (s : RS)
+    (hs : InvW cfg s) : SafeW cfg (readVars cfg fuel specs s) :=
+  readVars_safeW cfg hf fuel hrv specs s hs
+
+/-- the unrepaired `ScriptConstArrayHolder::Archive` (F12): an element count of `2^32 - 1` is handed to
+    `new ScriptVariable[size + 1]` — replayed on the real code by corpus/C11/f12-const-array-size.json -/
+theorem C11_legacy_const_array_size_trusted :
+    (readValue { Cfg.fixed with arraySizeChecked := false } 5 1 [2, 3]
+        ⟨encPrim .pos 1 ++ encPrim .byte 9 ++ encPrim .bool 1 ++ encPrim .pos 2 ++ encPrim .u32 0 ++ encPrim .u32 (2 ^ 32 - 1),
+          0, true, [0, 0, 0], []⟩ matches .err .alloc _) = true ∧
+    (readValue Cfg.fixed 5 1 [2, 3]
+        ⟨encPrim .pos 1 ++ encPrim .byte 9 ++ encPrim .bool 1 ++ encPrim .pos 2 ++ encPrim .u32 0 ++ encPrim .u32 (2 ^ 32 - 1),
+          0, true, [0, 0, 0], []⟩ matches .err .streamFail _) = true := by
+  constructor <;> decide +kernel
+
+example : SafeW Cfg.fixed (readSet Cfg.fixed ⟨[6, 0, 0, 0, 0, 0, 0, 0], 0, true, [], []⟩) :=
+  C11_set_archive_never_undefined Cfg.fixed ⟨rfl, rfl, rfl, rfl⟩ _ ⟨⟨by simp, by decide, by decide⟩, by decide⟩
 
 /-- What holds for **every** reader configuration, the unrepaired one included: a substituted byte at a
     magic / tag / object-size / class-name position (and at a version position when the version test is
